@@ -138,63 +138,6 @@ theorem drop_on_arrival (s : State) (c : String) : ∀ e ∈ (clear s c).pending
 
 /-! ### Termination -/
 
-/-- what `handle_announce` guarantees about an announce it passes on: the manifest has not expired
-    (so its expiry, and the wall clock, are positive) -/
-def Guarded (s : Step) : Prop :=
-  match s.op with
-  | .announce _ _ x => 0 < x ∧ 0 < s.wall
-  | _ => True
-
-/-- latest "announce time + maximum TTL" of a history (0 if nothing was announced) -/
-def horizonFrom (cfg : Cfg) (B : Int) : List Step → Int
-  | [] => B
-  | s :: rest =>
-    horizonFrom cfg (match s.op with
-      | .announce _ _ _ => max B (s.wall + cfg.maxTtl * second)
-      | _ => B) rest
-
-def horizon (cfg : Cfg) (hist : List Step) : Int := horizonFrom cfg 0 hist
-
-def Bounded (B : Int) (l : List Entry) : Prop := AllExp (fun x => x ≠ 0 ∧ x ≤ B) l
-
-theorem bounded_mono {B B' : Int} (h : B ≤ B') {l : List Entry} (hb : Bounded B l) : Bounded B' l :=
-  fun e he => ⟨(hb e he).1, Int.le_trans (hb e he).2 h⟩
-
-theorem bounded_step {cfg : Cfg} (hm : 0 ≤ cfg.maxTtl) {s : State} {B : Int} (hb : Bounded B s.pending) (t : Step)
-    (hg : Guarded t) :
-    Bounded (match t.op with
-      | .announce _ _ _ => max B (t.wall + cfg.maxTtl * second)
-      | _ => B) (step cfg s t).1.pending := by
-  unfold step
-  cases hop : t.op with
-  | announce c p x =>
-    simp only [Guarded, hop] at hg
-    have hle : B ≤ max B (t.wall + cfg.maxTtl * second) := Int.le_max_left _ _
-    simp only [announce]
-    split
-    · exact bounded_mono hle hb
-    · apply allExp_process
-      apply allExp_upsert
-      · exact bounded_mono hle hb
-      · have hs : 0 ≤ cfg.maxTtl * second := Int.mul_nonneg hm (by decide)
-        have h2 : t.wall + cfg.maxTtl * second ≤ max B (t.wall + cfg.maxTtl * second) := Int.le_max_right _ _
-        unfold cappedExpiry
-        generalize cfg.maxTtl * second = M at *
-        simp only [Int.min_def]
-        split <;> constructor <;> omega
-  | arrive c => exact allExp_clear _ c hb
-  | tick => exact allExp_process _ _ _ _ hb
-
-theorem bounded_run {cfg : Cfg} (hm : 0 ≤ cfg.maxTtl) (hist : List Step) :
-    ∀ {s : State} {B : Int}, Bounded B s.pending → (∀ t ∈ hist, Guarded t) →
-      Bounded (horizonFrom cfg B hist) (run cfg s hist).pending := by
-  induction hist with
-  | nil => intro s B hb _; exact hb
-  | cons t rest ih =>
-    intro s B hb hg
-    simp only [run, horizonFrom]
-    exact ih (bounded_step hm hb t (hg t List.mem_cons_self)) (fun u hu => hg u (List.mem_cons_of_mem _ hu))
-
 /-- every pending fetch carries an expiry, at most "its last announce + maximum TTL" -/
 theorem expiry_bounded (cfg : Cfg) (hm : 0 ≤ cfg.maxTtl) (hist : List Step) (hg : ∀ t ∈ hist, Guarded t) :
     ∀ e ∈ (run cfg State.init hist).pending, e.expires ≠ 0 ∧ e.expires ≤ horizon cfg hist :=
